@@ -10,7 +10,7 @@ from harness import protocol as P
 
 ck = Check('C09', 'model_checking')
 SCEN = C.scenario_list(ck.quick)
-MONITORS = [C.m_exc_strict, C.m_fsm, C.m_coll]
+MONITORS = [C.m_exc_strict, C.m_fsm, C.m_coll, C.m_queue]
 STATE_MONITORS = [C.sm_final]
 
 
@@ -55,7 +55,7 @@ def main():
                        drains=m['states'], per_scenario=stats, oracle_applicability=dict(sorted(cover.items())), samples=samples,
                        bounds=[C.label(s) for s in SCEN],
                        monitors=['M-exc (escape / unexpected internal error)', 'M-fsm (reference transition relation)',
-                                 'M-coll (RFC 7296 2.25 notifications)', 'M-final (lossless drain from every state)'])
+                                 'M-coll (RFC 7296 2.25 notifications)', 'M-queue (queued local events replayed once the response is in)', 'M-final (lossless drain from every state)'])
     ck.assumptions += ['model kernel, virtual clock, deterministic random stream (harness/seams.py)',
                        'expire triggers only target CHILD_SAs known to both endpoints (DESIGN.md section 5)',
                        'state merging per harness.world.canon, spot-checked by one-step bisimulation']
